@@ -24,6 +24,7 @@ type thread struct {
 	done   bool
 	ready  func() bool // nil = runnable
 	why    string
+	yielded bool
 }
 
 type scheduler struct {
@@ -138,6 +139,35 @@ func (s *scheduler) yieldPoint() {
 		s.preempts++
 		s.switchTo(ord[k])
 	}
+}
+
+// gosched implements runtime.Gosched / time.Sleep: in run-to-block mode the
+// other runnable threads get to run (each until it blocks or ends) before the
+// caller continues; in symbolic mode it is an ordinary preemption point.
+func (s *scheduler) gosched() {
+	if s.symbolic {
+		s.yieldPoint()
+		return
+	}
+	me := s.cur
+	for guard := 0; guard < 256; guard++ {
+		var next *thread
+		for _, t := range s.runnable() {
+			if t != me && !t.yielded {
+				next = t
+				break
+			}
+		}
+		if next == nil {
+			break
+		}
+		next.yielded = true
+		s.switchTo(next)
+	}
+	for _, t := range s.threads {
+		t.yielded = false
+	}
+	s.checkAbort()
 }
 
 func (in *interpreter) spawn(fn value, args []value, pos token.Pos) {
